@@ -167,8 +167,12 @@ func (ex *Exec) callFn(st *State, site string, fn *ssa.Function, args []Val, bin
 	}
 	// 2. contract of a repository function (modular call)
 	if ct := ex.w.contractFor(fn); ct != nil && fn != ex.root && !ct.inline && fn.Parent() == nil {
-		ex.applyContract(st, site, fn, ct, args, k)
-		return
+		// In lock-invariant (concurrency) mode a callee that acquires a lock is a new linearisation point: its contract,
+		// stated over atlock(), would be read against the caller's acquisition. Such callees are executed in place.
+		if !(ex.mode.concurrency && ex.w.mayLock(fn) && fn.Blocks != nil && ex.w.inlinable(fn)) {
+			ex.applyContract(st, site, fn, ct, args, k)
+			return
+		}
 	}
 	// 3. inline
 	if fn.Blocks != nil && ex.w.inlinable(fn) {
@@ -243,6 +247,7 @@ func (ex *Exec) bindParams(fn *ssa.Function, args []Val) *env {
 func (ex *Exec) applyContract(st *State, site string, fn *ssa.Function, ct *Contract, args []Val, k func(*State, Val)) {
 	e := ex.bindParams(fn, args)
 	name := shortFn(fn)
+	ex.checkCallbackArgs(st, site, fn, args)
 	for _, r := range ct.requires {
 		g := ex.evalBool(st, r.expr, e)
 		ex.record(st, fmt.Sprintf("%s/pre:%s@%s:%s", ex.rootName, name, site, r.label), "requires", g, r.src)
@@ -1246,5 +1251,46 @@ func (ex *Exec) spawnWithContract(st *State, in *ssa.Go, fv Val, gct *Contract) 
 	}
 	for _, w := range written {
 		st.shared[w] = true
+	}
+}
+
+// checkCallbackArgs: a concrete function passed for a parameter of a named function type that has a `functype` contract
+// (the callee was verified against that contract) must itself be under contract and not be weaker on blocking; it is
+// recorded as relied upon, so the property's check verifies its body against its whole contract (dependency closure).
+func (ex *Exec) checkCallbackArgs(st *State, site string, fn *ssa.Function, args []Val) {
+	if st.dry {
+		return
+	}
+	for i, p := range fn.Params {
+		if i >= len(args) || args[i].K != KFunc || args[i].Fn == nil {
+			continue
+		}
+		ft := ex.w.funcTypeContract(p.Type())
+		if ft == nil {
+			continue
+		}
+		real := args[i].Fn
+		if strings.Contains(real.Synthetic, "bound") || strings.Contains(real.Synthetic, "thunk") || strings.Contains(real.Synthetic, "wrapper") {
+			for _, b := range real.Blocks {
+				for _, in := range b.Instrs {
+					if c, ok := in.(*ssa.Call); ok {
+						if sc := c.Common().StaticCallee(); sc != nil {
+							real = sc
+						}
+					}
+				}
+			}
+		}
+		ob := ex.obl(fmt.Sprintf("%s/refines:%s<=%s@%s", ex.rootName, shortFn(real), ft.short, site), "structural")
+		ct2 := ex.w.contractFor(real)
+		switch {
+		case ct2 == nil:
+			ob.VCs = append(ob.VCs, VC{goal: "false", note: shortFn(real) + " is passed as a " + ft.short + " but has no contract of its own"})
+		case ft.blocksCancellable && !(ct2.blocksCancellable || ct2.blocksNever):
+			ob.VCs = append(ob.VCs, VC{goal: "false", note: shortFn(real) + " is passed as a " + ft.short + " (declared cancellable) but is not declared cancellable itself"})
+		default:
+			ob.VCs = append(ob.VCs, VC{goal: "true", note: shortFn(real) + " is under contract and is verified against it as a dependency unit"})
+			ex.usedContracts[fnKey(real)] = true
+		}
 	}
 }
